@@ -115,6 +115,9 @@ func run(r *core.Run) {
 	if e.want("law") {
 		e.law(l1)
 	}
+	if e.want("law3") {
+		e.law3(l1)
+	}
 	if e.want("textual") {
 		e.textual(l1)
 	}
@@ -774,6 +777,141 @@ func (e *explorer) lawOn(bins []node) {
 			}
 		}
 	}
+}
+
+// ---- three-way split law ------------------------------------------------------------------
+
+// law3Grid lists the cut pairs (a, k), 0 <= a <= k <= l: all of them for short binaries,
+// for longer ones every position near the start (two bytes) and the end (one byte).
+func law3Grid(l int) [][2]int {
+	var pos []int
+	for p := 0; p <= l; p++ {
+		if l <= 26 || p <= 17 || p >= l-9 {
+			pos = append(pos, p)
+		}
+	}
+	var g [][2]int
+	for i, a := range pos {
+		for _, k := range pos[i:] {
+			g = append(g, [2]int{a, k})
+		}
+	}
+	return g
+}
+
+// law3 cuts c = b.bits of every binary valued tree of depth <= 2 at every pair of
+// positions of law3Grid and checks the flat and the nested concatenation of the three
+// parts, observed as a bit string and through byte-unit indexing, against the reference.
+func (e *explorer) law3(l1 []node) {
+	r := e.r
+	var bins []node
+	for idx, n := range l1 {
+		if n.live && n.ref.K == kBin && r.Mine(int64(idx)) {
+			bins = append(bins, n)
+		}
+	}
+	obsOps := [][]Op{{{K: oToBits}}, {{K: oToBytes}, {K: oExplode}}, {{K: oToBytes}, {K: oIndex, N: 0}}, {{K: oToBytes}, {K: oIndex, N: -1}}}
+	const chunk = 8
+	for lo := 0; lo < len(bins); lo += chunk {
+		if r.Expired() {
+			r.NotExhaustive("deadline during the three-way split law")
+			return
+		}
+		hi := lo + chunk
+		if hi > len(bins) {
+			hi = len(bins)
+		}
+		vals := make([]any, 0, hi-lo)
+		grids := make([][][2]int, 0, hi-lo)
+		jgrids := make([]any, 0, hi-lo)
+		for _, n := range bins[lo:hi] {
+			vals = append(vals, n.fq)
+			c := apply(Op{K: oBits}, n.ref)
+			g := law3Grid(binLen(c))
+			grids = append(grids, g)
+			jg := make([]any, len(g))
+			for i, ak := range g {
+				jg[i] = []any{ak[0], ak[1]}
+			}
+			jgrids = append(jgrids, jg)
+		}
+		outs, err := e.s.Eval(map[string]any{"bins": vals, "grid": jgrids}, law3Text)
+		var rows []any
+		if err == nil && len(outs) == 1 {
+			rows, _ = outs[0].([]any)
+		}
+		if len(rows) != len(vals) {
+			t := bins[lo].tree()
+			r.Violate("law3-eval-failed", fmt.Sprintf("three-way split driver failed near %s: %v", t.Short(e.ls), err), caseOf(e, t, "law"))
+			continue
+		}
+		for i, row := range rows {
+			b := bins[lo+i]
+			c := apply(Op{K: oBits}, b.ref)
+			cuts, _ := row.([]any)
+			if len(cuts) != len(grids[i]) {
+				t := b.tree()
+				r.Violate("law3:cut-count", fmt.Sprintf("%s: %d cuts evaluated, %d expected", t.Short(e.ls), len(cuts), len(grids[i])), caseOf(e, t, "law"))
+				continue
+			}
+			for ci, ak := range grids[i] {
+				a, k := ak[0], ak[1]
+				x := apply(Op{K: oSlice, B: ip(a)}, c)
+				y := apply(Op{K: oSlice, A: ip(a), B: ip(k)}, c)
+				z := apply(Op{K: oSlice, A: ip(k)}, c)
+				refArr := pair(x, pair(y, z))
+				forms, _ := cuts[ci].([]any)
+				if len(forms) != 2 {
+					continue
+				}
+				for oi, chain := range obsOps {
+					ref := refArr
+					for _, o := range chain {
+						ref = apply(o, ref)
+					}
+					if ref.K == kUnmodelled {
+						continue
+					}
+					r.Eval(2)
+					r.Count("law3_cases", 2)
+					r.NontrivialHash(mix(mix(mix(uint64(oi)+101, uint64(a)), uint64(k)), b.key))
+					for fi, form := range forms {
+						obs, _ := form.([]any)
+						var got *Val
+						if oi < len(obs) {
+							if w, ok := obs[oi].([]any); ok && len(w) == 1 {
+								got = observe(w[0])
+							}
+						}
+						ltree := func() *Tree {
+							ct := tOp(Op{K: oBits}, b.tree())
+							t := tPair(tOp(Op{K: oSlice, B: ip(a)}, ct), tPair(tOp(Op{K: oSlice, A: ip(a), B: ip(k)}, ct), tOp(Op{K: oSlice, A: ip(k)}, ct)))
+							for _, o := range chain {
+								t = tOp(o, t)
+							}
+							return t
+						}
+						shape := []string{"flat", "nested"}[fi]
+						name := opNames[chain[len(chain)-1].K]
+						switch {
+						case ref.K == kErr:
+							if got != nil {
+								t := ltree()
+								r.Violate("law3:value-instead-of-error:"+name, fmt.Sprintf("%s (%s): reference: error; fq: %s", t.Short(e.ls), shape, got), caseOf(e, t, "law"))
+							}
+						case got == nil:
+							t := ltree()
+							r.Violate("law3:error:"+name+":"+operandClass(c), fmt.Sprintf("%s (%s): reference: %s; fq: error", t.Short(e.ls), shape, ref), caseOf(e, t, "law"))
+						case !equal(ref, got):
+							t := ltree()
+							r.Violate("law3:wrong-result:"+name+":"+operandClass(c)+":"+diff(ref, got), fmt.Sprintf("%s (%s): reference: %s; fq: %s", t.Short(e.ls), shape, ref, got), caseOf(e, t, "law"))
+						}
+					}
+				}
+			}
+		}
+	}
+	r.Section("three-way-split-law")
 }
 
 // ---- textual cross-check ----------------------------------------------------------------------
